@@ -33,18 +33,28 @@ const (
 	c04OpVerifyLeaf = iota
 	c04OpVerifyParent
 	c04OpAdd
+	// c04OpScribble: Marshal certificate A (the forest's object, or with Own its separately parsed copy) and
+	// overwrite the returned bytes (Mut == 0: all of them, Mut > 0: one bit). The serialisation is the caller's
+	// ("newly-allocated memory"): every later answer about A and about chains through A must be what it was.
+	c04OpScribble
+	// c04OpModify: parse certificate A afresh, change one field of the object (Mod), Marshal, parse the result:
+	// that object becomes certificate number len(certificates) of the forest and is used by later steps. Its ground
+	// truth is the CHANGED content under the signature A already had, so unless the change left the content as it
+	// was it must be rejected wherever A's signature matters.
+	c04OpModify
 )
 
 type c04Step struct {
-	Op   int   `json:"op"`
-	A    int   `json:"a"`              // leaf / child / certificate to add
-	B    int   `json:"b"`              // presented intermediate / parent; -1 none
-	Mut  int   `json:"mut,omitempty"`  // >0: present a copy of B with one bit changed
-	Own  bool  `json:"own,omitempty"`  // present a separately parsed copy instead of the forest's object
-	Name int   `json:"name"`           // requested name code
-	Sec  int64 `json:"sec"`            // verification time
-	Nsec int64 `json:"nsec,omitempty"` //
-	Zone int   `json:"zone,omitempty"` // 0 local, 1 UTC, 2 fixed +05:30 (same instant)
+	Op   int     `json:"op"`
+	A    int     `json:"a"`              // leaf / child / certificate to add
+	B    int     `json:"b"`              // presented intermediate / parent; -1 none
+	Mut  int     `json:"mut,omitempty"`  // >0: present a copy of B with one bit changed
+	Own  bool    `json:"own,omitempty"`  // present a separately parsed copy instead of the forest's object
+	Name int     `json:"name"`           // requested name code
+	Sec  int64   `json:"sec"`            // verification time
+	Nsec int64   `json:"nsec,omitempty"` //
+	Zone int     `json:"zone,omitempty"` // 0 local, 1 UTC, 2 fixed +05:30 (same instant)
+	Mod  *c04Mod `json:"mod,omitempty"`  // c04OpModify: the change
 }
 
 type c04Case struct {
@@ -137,6 +147,84 @@ func c04Run(c c04Case, v *vlib.Verdict) {
 			mstore[w.objs[st.A].fp] = w.objs[st.A]
 			v.Label("step:add")
 
+		case c04OpScribble:
+			if !inRange(st.A) || st.Mut < 0 {
+				v.Discard = true
+				return
+			}
+			target := w.objs[st.A].obj
+			if st.Own {
+				if target, err = w.ownCopy(st.A); err != nil {
+					v.Inconclusive = err.Error()
+					return
+				}
+			}
+			var b []byte
+			var merr error
+			if vlib.Guard(v, func() { b, merr = target.Marshal() }) {
+				return
+			}
+			if merr != nil {
+				v.Failf("C04:parsed-certificate-unserialisable", "step %d: Marshal of parsed certificate %d: %v", si, st.A, merr)
+				return
+			}
+			if st.Mut == 0 || len(b) == 0 {
+				for i := range b {
+					b[i] = ^b[i]
+				}
+			} else {
+				bit := (st.Mut - 1) % (len(b) * 8)
+				b[bit/8] ^= 1 << (bit % 8)
+			}
+			v.Label("step:marshal+scribble")
+
+		case c04OpModify:
+			if !inRange(st.A) || st.Mod == nil || len(w.objs) >= 40 {
+				v.Discard = true
+				return
+			}
+			src := w.objs[st.A]
+			nobj, apply, err := w.modified(src, *st.Mod)
+			if err == errC04Spec {
+				v.Discard = true
+				return
+			}
+			if err != nil {
+				v.Inconclusive = "forger (modified certificate): " + err.Error()
+				return
+			}
+			p, err := c04Parse(src.raw)
+			if err != nil {
+				v.Inconclusive = err.Error()
+				return
+			}
+			var b []byte
+			var merr error
+			if vlib.Guard(v, func() {
+				apply(p)
+				b, merr = p.Marshal()
+			}) {
+				return
+			}
+			if merr != nil {
+				v.Failf("C04:modified-certificate-unserialisable", "step %d: certificate %d parsed, %s changed: Marshal fails: %v", si, st.A, c04ModNames[st.Mod.Kind], merr)
+				return
+			}
+			q, err := c04Parse(b)
+			if err != nil {
+				v.Failf("C04:modified-certificate-unparseable", "step %d: certificate %d parsed, %s changed, marshalled: ReadFrom fails: %v", si, st.A, c04ModNames[st.Mod.Kind], err)
+				return
+			}
+			nobj.obj, nobj.own = q, q
+			w.objs = append(w.objs, nobj)
+			if _, dup := w.byFP[nobj.fp]; !dup {
+				w.byFP[nobj.fp] = nobj
+			}
+			v.Label("step:modify:" + c04ModNames[st.Mod.Kind])
+			if nobj.modSame {
+				v.Label("step:modify/content-unchanged")
+			}
+
 		case c04OpVerifyParent:
 			if !inRange(st.A) || !inRange(st.B) {
 				v.Discard = true
@@ -225,6 +313,17 @@ func c04Run(c c04Case, v *vlib.Verdict) {
 						si, st.A, st.B, presKind, st.Name, st.Sec, st.Nsec, got)
 				}
 				return
+			}
+			if leaf.modOf >= 0 || (presTruth != nil && presTruth.modOf >= 0) {
+				what := "leaf"
+				if leaf.modOf < 0 {
+					what = "presented"
+				}
+				if nFalse == 0 {
+					v.Label("q:modified-" + what + ":accept")
+				} else {
+					v.Label("q:modified-" + what + ":reject:" + c04ClauseNames[first])
+				}
 			}
 			switch {
 			case nFalse == 0:
@@ -545,6 +644,31 @@ func c04Gen(t *rapid.T) c04Case {
 		}
 		return -1
 	}
+	genMod := func() c04Mod {
+		switch k := pick("modKind", 100); {
+		case k < 12:
+			return c04Mod{Kind: c04ModSubSecond, Val: c04From(d, "modNs", []int64{1, 500_000_000, 999_999_999})}
+		case k < 18:
+			return c04Mod{Kind: c04ModSameValue}
+		case k < 28:
+			return c04Mod{Kind: c04ModType, Val: int64(c04From(d, "modType", types))}
+		case k < 42:
+			return c04Mod{Kind: c04ModIss, Val: c04From(d, "modIss", []int64{-1, 1, -3600, 3600, -86400})}
+		case k < 62:
+			return c04Mod{Kind: c04ModExp, Val: c04From(d, "modExp", []int64{-1, 1, 3600, 86400, -3600, 10 * 86400})}
+		case k < 72:
+			return c04Mod{Kind: c04ModNameAdd, Val: int64(pick("modName", len(c04Pool)))}
+		case k < 78:
+			return c04Mod{Kind: c04ModNameDrop}
+		case k < 90:
+			return c04Mod{Kind: c04ModNameSet, Val: int64(pick("modName", len(c04Pool)))}
+		case k < 95:
+			return c04Mod{Kind: c04ModKey, Val: int64(pick("modKey", n))}
+		default:
+			return c04Mod{Kind: c04ModParent, Val: int64(pick("modParent", n+1)) - 1}
+		}
+	}
+	nMods := 0
 	nSteps := 3 + pick("nsteps", 8)
 	for k := 0; k < nSteps; k++ {
 		var st c04Step
@@ -556,6 +680,39 @@ func c04Gen(t *rapid.T) c04Case {
 		}
 		i := parentOf(l)
 		r := parentOf(i)
+		// one step in four is preceded by something a holder of parsed certificates may do with them: take the
+		// serialisation of a chain member and overwrite it, or change a field of a parsed copy and put it back on the
+		// wire (the step that follows then asks about the re-parsed object).
+		modLeaf, modInter := -1, -1
+		var mod c04Mod
+		switch pre := pick("pre", 100); {
+		case pre < 12:
+			cand := []int{l}
+			if i >= 0 {
+				cand = append(cand, i)
+			}
+			if r >= 0 {
+				cand = append(cand, r)
+			}
+			sc := c04Step{Op: c04OpScribble, A: cand[pick("scribbleWhich", len(cand))], B: -1, Name: c04NameNone, Own: d.coin("scribbleOwn", 2)}
+			if d.coin("scribbleBit", 1) {
+				sc.Mut = 1 + 4*pick("scribbleAt", 1024) + pick("scribbleAtLow", 4)
+			}
+			c.Steps = append(c.Steps, sc)
+		case pre < 26:
+			target := l
+			if i >= 0 && d.coin("modInter", 2) {
+				target = i
+			}
+			mod = genMod()
+			c.Steps = append(c.Steps, c04Step{Op: c04OpModify, A: target, B: -1, Name: c04NameNone, Mod: &c04Mod{Kind: mod.Kind, Val: mod.Val}})
+			if target == l {
+				modLeaf = n + nMods
+			} else {
+				modInter = n + nMods
+			}
+			nMods++
+		}
 		switch w := pick("op", 100); {
 		case w < 10:
 			st.Op = c04OpAdd
@@ -650,6 +807,22 @@ func c04Gen(t *rapid.T) c04Case {
 			}
 			st.Zone = c04From(d, "zone", []int{0, 0, 1, 2})
 		}
+		// the step after a "modify" step asks about the object that step produced
+		switch {
+		case modLeaf >= 0 && st.Op == c04OpVerifyLeaf:
+			st.A = modLeaf
+			if (mod.Kind == c04ModNameAdd || mod.Kind == c04ModNameSet) && d.coin("askNewName", 1) {
+				st.Name = int(mod.Val)
+			}
+		case modLeaf >= 0 && st.Op == c04OpVerifyParent && i >= 0:
+			st.A, st.B = modLeaf, i
+		case modInter >= 0 && st.Op == c04OpVerifyLeaf:
+			st.B, st.Mut = modInter, 0
+		case modInter >= 0 && st.Op == c04OpVerifyParent:
+			st.A, st.B = l, modInter
+		case modInter >= 0 && st.Op == c04OpAdd:
+			st.A = modInter
+		}
 		c.Steps = append(c.Steps, st)
 	}
 	return c
@@ -731,11 +904,11 @@ func c04SelfTest(t *testing.T) {
 		{2, 1, []int{0}, c04NameNone, now, true},
 		{2, -1, []int{0, 1}, 0, now, true},
 		{2, -1, []int{0, 1}, 3, now, true},
-		{2, -1, []int{0, 1}, 1, now, false},         // same label, other type
-		{2, -1, []int{0, 1}, 2, now, false},         // case variant
-		{2, 1, nil, c04NameNone, now, false},        // empty store
-		{2, -1, []int{0}, c04NameNone, now, false},  // unknown intermediate
-		{2, 1, []int{1}, c04NameNone, now, false},   // root not stored
+		{2, -1, []int{0, 1}, 1, now, false},          // same label, other type
+		{2, -1, []int{0, 1}, 2, now, false},          // case variant
+		{2, 1, nil, c04NameNone, now, false},         // empty store
+		{2, -1, []int{0}, c04NameNone, now, false},   // unknown intermediate
+		{2, 1, []int{1}, c04NameNone, now, false},    // root not stored
 		{1, 1, []int{0, 1}, c04NameNone, now, false}, // not a leaf
 		{2, 1, []int{0}, c04NameNone, specs[2].Exp, false},
 		{2, 1, []int{0}, c04NameNone, specs[2].Exp - 1, true},
@@ -784,8 +957,9 @@ type c04APICase struct {
 	LeafAt   c04At      `json:"leafat"`
 	LeafDur  int64      `json:"leafdur"`
 	Names    []int      `json:"names"`
-	Reparse  int        `json:"reparse"` // bit 0 leaf, 1 intermediate, 2 root: verify the marshalled and re-read certificate
-	Layout   int        `json:"layout"`  // 0 presented + store{root}; 1 store{root, intermediate}; 2 both
+	Reparse  int        `json:"reparse"`            // bit 0 leaf, 1 intermediate, 2 root: verify the marshalled and re-read certificate
+	Scribble int        `json:"scribble,omitempty"` // bit 0 leaf, 1 intermediate, 2 root: before the probes the member in use is marshalled once more and every byte of that serialisation is overwritten by its caller
+	Layout   int        `json:"layout"`             // 0 presented + store{root}; 1 store{root, intermediate}; 2 both
 	Probes   []c04Probe `json:"probes"`
 }
 
@@ -926,6 +1100,24 @@ func c04APIRun(c c04APICase, v *vlib.Verdict) {
 	if c.Layout != 0 {
 		store.AddCertificate(chain[1])
 	}
+	// Marshal gives "newly-allocated memory": what its caller does with the bytes must not reach the certificate
+	for i := range chain {
+		if c.Scribble&(1<<i) != 0 {
+			var b []byte
+			var err error
+			if vlib.Guard(v, func() { b, err = chain[i].Marshal() }) {
+				return
+			}
+			if err != nil {
+				v.Failf("C04:issued-certificate-unserialisable", "member %d (second Marshal): %v", i, err)
+				return
+			}
+			for k := range b {
+				b[k] = ^b[k]
+			}
+			v.Label("issued:marshal+scribble")
+		}
+	}
 	accepts := 0
 	for pi, p := range c.Probes {
 		if p.Ref < 0 || p.Ref > 2 || p.Name < c04NameNilTyped || p.Name >= len(c04Pool) {
@@ -1030,6 +1222,7 @@ func c04APIGen(t *rapid.T) c04APICase {
 		LeafDur:  durGen("leafDur"),
 		Reparse:  c04From(d, "reparse", []int{0, 7, 7, 1, 2, 4, 3, 5, 6}),
 		Layout:   d.n("layout", 3),
+		Scribble: c04From(d, "scribble", []int{0, 0, 0, 1, 2, 4, 7, 3}),
 	}
 	c.InterAt = atGen("inter", 5*365*day)
 	span := c.InterDur
